@@ -163,6 +163,13 @@ func (m *c10cModel) enabled(ev c08srvEv, enforce bool) bool {
 		}
 		n := c10RelLen(s.view, m.connView, true, ev.arg(1))
 		return n >= 0 && n <= 16384
+	case "DRP": // PADDED boundary-relative frame, see c10Frame
+		s := idx()
+		if !s.opened || !s.srvOpen || ev.arg(2) < 1 || ev.arg(2) > 256 {
+			return false
+		}
+		ln, fl, _, _ := c10Frame(ev, s.view, m.connView)
+		return ln >= 0 && fl <= 16384
 	case "R":
 		s := idx()
 		return s.app == 1 && !s.closed
@@ -202,13 +209,9 @@ func (m *c10cModel) apply(ev c08srvEv) {
 		} else {
 			s.srvOpen = true
 		}
-	case "D", "DR":
+	case "D", "DR", "DRP":
 		s := idx()
-		ln, pad, end := ev.arg(1), ev.arg(2), ev.arg(3) != 0
-		if ev.K == "DR" {
-			ln, pad, end = c10RelLen(s.view, m.connView, s.srvOpen, ev.arg(1)), 0, ev.arg(2) != 0
-		}
-		fl := c10FlowLen(ln, pad)
+		ln, fl, _, end := c10Frame(ev, s.view, m.connView)
 		if fl > m.connView || (s.srvOpen && fl > s.view) {
 			m.terminal = true
 			return
@@ -519,24 +522,18 @@ func c10cliRunCase(w *vx.W, t testing.TB, cs c09cliCase, mode c10sMode) (res c10
 				kv = []string{"content-length", fmt.Sprint(s.cl)}
 			}
 			env.respHeaders(id, s.respEnd, kv...)
-		case "D", "DR":
+		case "D", "DR", "DRP":
 			if s == nil {
 				applied = false
 				break
 			}
-			ln, pad, end := ev.arg(1), ev.arg(2), ev.arg(3) != 0
-			if ev.K == "DR" {
-				if !s.srvOpen() {
-					applied = false
-					break
-				}
-				ln, pad, end = c10RelLen(s.view, mon.connView, true, ev.arg(1)), 0, ev.arg(2) != 0
-				if ln < 0 || ln > 16384 {
+			ln, fl, pad, end := c10Frame(ev, s.view, mon.connView)
+			if ev.K != "D" {
+				if !s.srvOpen() || ln < 0 || fl > 16384 || pad > 255 {
 					applied = false
 					break
 				}
 			}
-			fl := c10FlowLen(ln, pad)
 			inWin := fl <= mon.connView && (!s.srvOpen() || fl <= s.view)
 			if !inWin && (!mode.enforce || !s.srvOpen()) {
 				applied = false
@@ -559,12 +556,16 @@ func c10cliRunCase(w *vx.W, t testing.TB, cs c09cliCase, mode c10sMode) (res c10
 				kind = "D-after-body-close"
 			case s.cl >= 0 && int64(s.sent)+ln > s.cl:
 				kind = "D-past-content-length"
-			case pad > 0:
+			case pad >= 0:
 				kind = "D-padded"
 			}
 			res.refundPaths[kind] = true
 			data := c08srvPattern(s.sent, int(ln))
 			if !inWin {
+				if pad >= 0 && ln <= mon.connView && ln <= s.view {
+					// the payload alone would fit: only counting the padding puts the frame outside
+					res.refundPaths["D-beyond-window-by-padding-only"] = true
+				}
 				res.excessSent = true
 				s.excess = true
 				if fl > mon.connView {
@@ -591,7 +592,8 @@ func c10cliRunCase(w *vx.W, t testing.TB, cs c09cliCase, mode c10sMode) (res c10
 				s.irregular = true
 			}
 			res.dataSent++
-			if pad > 0 {
+			if pad >= 0 {
+				// a non-nil empty padding still sets PADDED (pad-length byte 0)
 				env.wr(env.tc.fr.WriteDataPadded(id, end, data, make([]byte, pad)))
 			} else {
 				env.wr(env.tc.fr.WriteData(id, end, data))
